@@ -5,6 +5,7 @@ package main
 // about one spelling of it.
 
 import (
+	"fmt"
 	"go/token"
 	"go/types"
 
@@ -168,4 +169,61 @@ func looksLikeMask(v ssa.Value) bool {
 		}
 	}
 	return false
+}
+
+// ReportTableWidth: the functions that fill the exported mask tables compute every variable left shift in a
+// fixed 64-bit type. `1 << uint(i)` in int / uint is 32 bits wide on 386/arm: entries 32..63 come out as 0 or
+// sign-extended, on amd64 the same source is correct — a configuration-dependent defect no amd64 test sees.
+func ReportTableWidth(w *World, r *Report) {
+	r.Rule("R-TABLEWIDTH", "code that stores into bitmap.Mask/RMask/MaskUpto/RMaskUpto/Bit/RBit performs every left shift by a non-constant amount in a 64-bit type (not int/uint/uintptr or a narrower type), so the tables have the same contents on 32-bit platforms")
+	p := w.Pkg("bitmap")
+	if p == nil {
+		r.Unknown("R-TABLEWIDTH", "bitmap", "-", "package bitmap not found")
+		return
+	}
+	nfn := 0
+	for _, fn := range w.SourceFuncs() {
+		if fnPkg(fn) == nil || fnPkg(fn) != p.Pkg {
+			continue
+		}
+		writes := false
+		eachInstr(fn, func(ins ssa.Instruction) {
+			if st, ok := ins.(*ssa.Store); ok {
+				if g, ok := addrBase(st.Addr).(*ssa.Global); ok && maskTables[g.Name()] {
+					writes = true
+				}
+			}
+		})
+		if !writes {
+			continue
+		}
+		nfn++
+		bad := ""
+		nsh := 0
+		eachInstr(fn, func(ins ssa.Instruction) {
+			bo, ok := ins.(*ssa.BinOp)
+			if !ok || bo.Op != token.SHL {
+				return
+			}
+			if _, isC := constInt64(stripConv(bo.Y)); isC {
+				return
+			}
+			nsh++
+			bt, ok := bo.Type().Underlying().(*types.Basic)
+			if !ok {
+				return
+			}
+			switch bt.Kind() {
+			case types.Uint64, types.Int64:
+			case types.Int, types.Uint, types.Uintptr:
+				bad = fmt.Sprintf("a table entry is derived from a shift computed in the platform-sized type %s at %s: on 32-bit platforms entries 32..63 are wrong", bt.Name(), w.InstrPos(ins))
+			default:
+				bad = fmt.Sprintf("a table entry is derived from a shift computed in %s at %s", bt.Name(), w.InstrPos(ins))
+			}
+		})
+		r.Check(bad == "", "R-TABLEWIDTH", w.FuncName(fn), w.Pos(fn.Pos()), bad, fmt.Sprintf("%d variable shifts, all in 64-bit types", nsh))
+	}
+	if nfn == 0 {
+		r.Unknown("R-TABLEWIDTH", "bitmap", "-", "no function storing into the mask tables found")
+	}
 }
